@@ -107,6 +107,9 @@ func c16GenPartial(rng *rand.Rand, p *C16P) {
 		if rng.Intn(3) != 0 {
 			rule = nil
 		}
+		if rng.Intn(2) == 0 {
+			c16GenSaveMods(rng, p, true)
+		}
 	}
 	if rule != nil {
 		p.Steps = append(p.Steps, C16St{K: "oc", Rule: rule})
